@@ -22,8 +22,10 @@ RULE = (
 )
 ASSUMPTIONS = ["layer functions behave as functions of their argument only"]
 
-MAP_FN = [None, [["app", "m"]], [["raisearg", "E1"]], [["futarg", "done"]], [["nonfut"]], [["ret", None]]]
-MAP_ERR = [None, [["app", "h"]], [["reraise"]], [["raisearg", "E2"]], [["retexc"]]]
+# (ISE: the function fails with an InvalidStateError; EQ: an exception type whose instances all compare equal - the error
+#  function raises a FRESH one while handling an equal one)
+MAP_FN = [None, [["app", "m"]], [["raisearg", "E1"]], [["futarg", "done"]], [["nonfut"]], [["ret", None]], [["raisearg", "ISE"]]]
+MAP_ERR = [None, [["app", "h"]], [["reraise"]], [["raisearg", "E2"]], [["retexc"]], [["raisearg", "EQ"]]]
 FLAT_FN = [None, [["futarg", "done"]], [["futarg", "err", "E2"]], [["futarg", "cancelled"]], [["fut", "src", "i0"]], [["raisearg", "E1"]], [["nonfut"]], [["app", "m"]], [["ret", None]], [["ret", 0]], [["ret", []]]]
 FLAT_ERR = [None, [["futarg", "done"]], [["futarg", "err", "E3"]], [["futarg", "cancelled"]], [["fut", "src", "i1"]], [["reraise"]], [["raisearg", "E2"]], [["nonfut"]], [["ret", None]], [["ret", ""]]]
 INNER = [["value"], ["error", "E2"], ["cancel"]]
@@ -196,7 +198,7 @@ def inner_variants(layers):
 def enum_cases(part, parts):
     idx = 0
     # (EF: a falsy exception instance; in_handler: the input is failed by a thread that is handling another exception)
-    inputs = [["value"], ["error", "E1"], ["cancel"], ["error", "EF"], ["error", "E1", "in_handler"]]
+    inputs = [["value"], ["error", "E1"], ["cancel"], ["error", "EF"], ["error", "E1", "in_handler"], ["error", "EQ"]]
     for form in ("exec", "f"):
         for kind, FN, ERR in (("map", MAP_FN, MAP_ERR), ("flat_map", FLAT_FN, FLAT_ERR)):
             for fn in FN:
